@@ -1343,6 +1343,17 @@ func (d *Ledger) setEpoch(e uint32) {
 // actSched offers a schedule: valid ones (pairwise distinct primes) and invalid ones (a zero or missing entry).
 func (d *Ledger) actSched() {
 	g := world.StdGas(d.R.Intn(2))
+	if d.chance(35) {
+		// a change confined to ONE section of the schedule in force (the other section keeps every value)
+		g = world.CloneGas(d.W.Sched)
+		sec := []string{"BuiltInCost", "BaseOperationCost"}[d.R.Intn(2)]
+		bump := uint64(1 + d.R.Intn(5))
+		for k := range g[sec] {
+			g[sec][k] += bump * uint64(1+len(k)%3)
+		}
+		d.setSched(g)
+		return
+	}
 	if d.chance(40) {
 		// permute the valid schedule so that every field gets a different value than before
 		vals := []uint64{}
